@@ -33,6 +33,7 @@ int vs_exc; bool g_hit_end;
 /* std::string_view, and std::string built from (data, length): the characters [p, p+n) */
 struct vs_sv { const char *p; size_t n; };
 struct vs_route { char o; };
+struct vs_route vs_new_route;   /* the Route object addRoute creates */
 /* TypedParam(name, value) */
 struct vs_bind { struct vs_sv name, value; };
 /* std::vector<TypedParam>: size and top element */
@@ -51,6 +52,8 @@ static inline void vs_level_note_find(struct vs_level *L, const struct vs_sv *pa
 static inline size_t vs_sv_find(struct vs_level *L, const struct vs_sv *path, const struct vs_sv *s, char ch)
 {
     size_t r; __CPROVER_assume(r == VS_NPOS || r < s->n);
+    /* the paths and patterns handed to the tree are sanitised (sanitizeResource): no leading and no doubled '/', i.e. no empty segment */
+    if (ch == '/' && s == path) __CPROVER_assume(r != 0);
     vs_level_note_find(L, path, s, ch, r);
     return r;
 }
@@ -63,7 +66,7 @@ static inline struct vs_sv vs_sv_substr(const struct vs_sv *s, size_t pos, size_
     r.p = pos ? s->p + pos : s->p;
     return r;
 }
-struct vs_sv g_dup;
+struct vs_sv g_dup; size_t g_q;
 static inline const char *vs_str_index(const struct vs_sv *s, size_t i)
 {
     __CPROVER_assert(i < s->n, "std::string::operator[] inside the string (index size() is the terminator, anything beyond is undefined)");
@@ -93,7 +96,10 @@ struct vs_level {
     bool pj_asked, oj_asked;
     size_t cur_idx; struct vs_sv cur_key;   /* entry being visited by the current range-for */
     struct vs_cpair slot;          /* the map entry a range-for variable refers to */
-    struct Pistache_Rest_SegmentTreeNode *fixed_ptr;   /* what fixed_.at(segment) refers to */
+    struct Pistache_Rest_SegmentTreeNode *fixed_ptr;   /* what <map>.at(segment) refers to */
+    /* addRoute / removeRoute: the type of the first segment (-1: not asked), the recursive descents made, what the child answered, what was done to the map */
+    size_t q; bool q_set;           /* getSegmentType: result of fragment.find('?') */
+    int typ; size_t descents; bool child_removable, erased, inserted; const struct vs_sv *pathp;
 };
 '''
 SV = 'std::string_view'
@@ -104,7 +110,9 @@ CCI = 'std::__detail::_Node_const_iterator<std::pair<std::basic_string_view<char
 CI = 'std::__detail::_Node_iterator<std::pair<std::basic_string_view<char>, std::shared_ptr<Pistache::Rest::SegmentTreeNode>>, false, true>'
 CP = 'std::pair<std::basic_string_view<char>, std::shared_ptr<Pistache::Rest::SegmentTreeNode>>'
 RES = 'std::tuple<std::shared_ptr<Pistache::Rest::Route>, std::vector<Pistache::Rest::TypedParam>, std::vector<Pistache::Rest::TypedParam>>'
+CM2 = 'std::unordered_map<std::string_view, std::shared_ptr<SegmentTreeNode>>'
 TYPES = {
+    'Route::Handler': 'struct vs_opaque', 'Pistache::Rest::Route::Handler': 'struct vs_opaque', 'std::shared_ptr<char>': 'struct vs_opaque',
     CCI + '::value_type': 'struct vs_cpair', CI + '::value_type': 'struct vs_cpair',
     CIB: 'struct vs_cit', CCI: 'struct vs_cit', CI: 'struct vs_cit', CP: 'struct vs_cpair', 'std::pair<const std::basic_string_view<char>, std::shared_ptr<Pistache::Rest::SegmentTreeNode>>': 'struct vs_cpair',
     'std::pair<const std::string_view, std::shared_ptr<Pistache::Rest::SegmentTreeNode>>': 'struct vs_cpair',
@@ -119,6 +127,20 @@ TYPES = {
 }
 STUBS = {
     'move': {'expr': '($0)'},
+    'std::__shared_ptr<Pistache::Rest::SegmentTreeNode, __gnu_cxx::_S_atomic>::reset': {'expr': '((void)(*($this) = 0))'},
+    'make_shared|shared_ptr<_NonArray<Pistache::Rest::Route>> (const std::function<Pistache::Rest::Route::Result (Pistache::Rest::Request, Pistache::Http::ResponseWriter)> &)': {'expr': '(&vs_new_route)'},
+    'operator=|std::shared_ptr<Pistache::Rest::Route>,std::shared_ptr<Pistache::Rest::Route>': {'expr': '(($0) = ($1))'},
+    'make_shared|shared_ptr<_NonArray<Pistache::Rest::SegmentTreeNode>> (const std::shared_ptr<char> &)': {'expr': '(vs_make_shared_node(&L))'},
+    'operator=|std::shared_ptr<Pistache::Rest::SegmentTreeNode>,std::shared_ptr<Pistache::Rest::SegmentTreeNode>': {'expr': '(($0) = ($1))'},
+    'make_pair|pair<typename __decay_and_strip<basic_string_view<char> &>::__type, typename __decay_and_strip<shared_ptr<SegmentTreeNode>>::__type> (std::basic_string_view<char> &, std::shared_ptr<Pistache::Rest::SegmentTreeNode> &&)': {'expr': '((struct vs_cpair){($0), ($1)})'},
+    'std::__shared_ptr<Pistache::Rest::Route, __gnu_cxx::_S_atomic>::reset': {'expr': '((void)(*($this) = 0))'},
+    # addRoute / removeRoute reach the children map through a pointer `collection` (chosen by the segment type)
+    CM2 + '::count': {'expr': 'vs_cmap_count(&L, path, $this, $0)'}, CM2 + '::at': 'vs_cmap_at_fn',
+    CM2 + '::erase': {'expr': 'vs_cmap_erase(&L, path, $this, $0)'}, CM2 + '::insert': {'expr': 'vs_cmap_insert(&L, path, $this, $0)'}, CM2 + '::empty': {'expr': '((($this))->n == 0)'},
+    CM + '::erase': {'expr': 'vs_cmap_erase(&L, path, $this, $0)'}, CM + '::insert': {'expr': 'vs_cmap_insert(&L, path, $this, $0)'},
+    CM + '::empty': {'expr': '((($this))->n == 0)'},
+    'operator=|std::basic_string_view<char>,std::basic_string_view<char>': {'expr': '(($0) = ($1))'},
+    'operator[]|std::basic_string_view<char>': {'expr': '(*vs_str_index(&($0), $1))'},
     # std::regex_replace(path, multiple_slash, "/"): the collapsed text, a string of its own (g_dup); at least one and at most as many characters
     'regex_replace': {'expr': '(g_dup)'}, 'var:Pistache::Rest::SegmentTreeNode::multiple_slash': '0',
     'operator[]|std::string': {'expr': '(*vs_str_index(&($0), $1))'}, 'std::string::length': {'expr': '((($this))->n)'}, 'std::string::size': {'expr': '((($this))->n)'},
@@ -139,7 +161,7 @@ STUBS = {
     'std::basic_string_view<char>::substr/2': {'expr': 'vs_sv_substr($this, $0, $1)'}, 'std::basic_string_view<char>::substr/1': {'expr': 'vs_sv_substr($this, $0, VS_NPOS)'},
     'ctor:std::basic_string_view<char>/2': {'expr': '((struct vs_sv){($0), ($1)})'}, 'ctor:std::string_view/2': {'expr': '((struct vs_sv){($0), ($1)})'},
     'ctor:std::string/2': {'expr': '((struct vs_sv){($0), ($1)})'},
-    CM + '::count': {'expr': 'vs_cmap_count(&L, path, $this, $0)'}, CM + '::at': {'expr': '(*vs_cmap_at(&L, path, $this, $0))'}, CM + '::empty': {'expr': '((($this))->n == 0)'},
+    CM + '::count': {'expr': 'vs_cmap_count(&L, path, $this, $0)'}, CM + '::at': 'vs_cmap_at_fn', CM + '::empty': {'expr': '((($this))->n == 0)'},
     CM + '::begin': {'expr': '((struct vs_cit){(($this))->kind, 0})'}, CM + '::end': {'expr': '((struct vs_cit){(($this))->kind, (($this))->n})'},
     'operator!=|%s,%s' % (CIB, CIB): {'expr': '(($0).i != ($1).i)'}, 'operator==|%s,%s' % (CIB, CIB): {'expr': '(($0).i == ($1).i)'},
     'operator++|' + CCI: {'expr': '(++($0).i)'}, 'operator++|' + CI: {'expr': '(++($0).i)'},
@@ -151,33 +173,95 @@ STUBS = {
 }
 PRELUDE_AFTER_RECORDS = r'''
 /* the children this level can reach: one object per kind (what is below a child is the induction hypothesis, not modelled) */
-struct Pistache_Rest_SegmentTreeNode vs_child_fixed, vs_child_param, vs_child_opt, vs_child_splat;
+struct Pistache_Rest_SegmentTreeNode vs_child_fixed, vs_child_param, vs_child_opt, vs_child_splat, vs_child_new;
 #define SEG_N(L) ((L)->d == VS_NPOS ? path->n : (L)->d)
-#define NODE_OK(n) ((n)->fixed_.kind == 1 && (n)->param_.kind == 2 && (n)->optional_.kind == 3 && (n)->param_.n <= PATH_MAX_LEN && (n)->optional_.n <= PATH_MAX_LEN \
-    && ((n)->splat_ == 0 || (n)->splat_ == &vs_child_splat))
+#define MAP_OK(m) (!(m)->has_seg || (m)->n >= 1)
+#define NODE_OK(n) (MAP_OK(&(n)->fixed_) && MAP_OK(&(n)->param_) && MAP_OK(&(n)->optional_) && (n)->fixed_.n <= PATH_MAX_LEN && (n)->fixed_.kind == 1 && (n)->param_.kind == 2 && (n)->optional_.kind == 3 && (n)->param_.n <= PATH_MAX_LEN && (n)->optional_.n <= PATH_MAX_LEN \
+    && ((n)->splat_ == 0 || (n)->splat_ == &vs_child_splat || (n)->splat_ == &vs_child_new))
 static inline bool node_ok(const struct Pistache_Rest_SegmentTreeNode *n) { return NODE_OK(n); }
-static inline struct vs_level vs_level_init(const struct vs_sv *path, const struct vs_pvec *params, const struct vs_pvec *splats)
+static inline struct vs_level vs_level_init_(const struct vs_sv *path, size_t pn, size_t sn)
 {
     struct vs_level L; size_t pj, oj;
-    L.d = 0; L.d_set = 0; L.p0 = params->n; L.s0 = splats->n; L.stage = 0; L.found = 0;
-    L.fixed_asked = 0; L.splat_asked = 0; L.leaf_opt_asked = 0; L.pj = pj; L.oj = oj; L.pj_asked = 0; L.oj_asked = 0; L.cur_idx = 0; L.cur_key.p = 0; L.cur_key.n = 0; L.slot.first = L.cur_key; L.slot.second = 0; L.fixed_ptr = &vs_child_fixed;
+    L.d = 0; L.d_set = 0; L.p0 = pn; L.s0 = sn; L.stage = 0; L.found = 0;
+    L.fixed_asked = 0; L.splat_asked = 0; L.leaf_opt_asked = 0; L.pj = pj; L.oj = oj; L.pj_asked = 0; L.oj_asked = 0; L.cur_idx = 0; L.cur_key.p = 0; L.cur_key.n = 0; L.slot.first = L.cur_key; L.slot.second = 0; L.fixed_ptr = &vs_child_fixed; L.typ = -1; L.descents = 0; L.child_removable = 0; L.erased = 0; L.inserted = 0; L.pathp = path;
     return L;
 }
+static inline struct vs_level vs_level_init(const struct vs_sv *path, const struct vs_pvec *params, const struct vs_pvec *splats) { return vs_level_init_(path, params->n, splats->n); }
+static inline struct vs_level vs_level_init0(const struct vs_sv *path) { return vs_level_init_(path, 0, 0); }
 static inline void vs_level_note_find(struct vs_level *L, const struct vs_sv *path, const struct vs_sv *s, char ch, size_t r)
 {
+    if (ch == '?' && s == path) { L->q = r; L->q_set = 1; }
     if (ch == '/' && s == path && !L->d_set) { L->d = r; L->d_set = 1; }
 }
-/* count(segment) / at(segment) on the fixed map: asked about the current segment, i.e. the path up to its first '/' */
+/* the key a children map is asked about: the first segment of the path; for an optional pattern segment (":name?") without its '?' */
+#define KIND_OF_TYPE(t) ((t) == Pistache_Rest_SegmentTreeNode_SegmentType_Fixed ? 1 : (t) == Pistache_Rest_SegmentTreeNode_SegmentType_Param ? 2 : (t) == Pistache_Rest_SegmentTreeNode_SegmentType_Optional ? 3 : 4)
+static inline void vs_key_check(const struct vs_level *L, const struct vs_sv *path, const struct vs_cmap *m, struct vs_sv seg)
+{
+    if (L->typ == -1)
+        __CPROVER_assert(L->d_set && seg.p == path->p && seg.n == SEG_N(L), "C10: children are looked up by the first segment of the path (the text before the first '/')");
+    else {
+        __CPROVER_assert(m->kind == KIND_OF_TYPE(L->typ), "C10: a pattern segment is filed under (and removed from) the children map of its own kind: fixed, parameter or optional");
+        __CPROVER_assert(L->d_set && seg.p == path->p && seg.n == (L->typ == Pistache_Rest_SegmentTreeNode_SegmentType_Optional ? SEG_N(L) - 1 : SEG_N(L)),
+                         "C10: the key is the first segment of the pattern (an optional parameter without its '?')");
+    }
+}
 static inline size_t vs_cmap_count(struct vs_level *L, const struct vs_sv *path, const struct vs_cmap *m, struct vs_sv seg)
 {
-    __CPROVER_assert(L->d_set && seg.p == path->p && seg.n == SEG_N(L), "C10: children are looked up by the first segment of the path (the text before the first '/')");
+    vs_key_check(L, path, m, seg);
     return m->has_seg ? 1 : 0;
 }
-static inline struct Pistache_Rest_SegmentTreeNode **vs_cmap_at(struct vs_level *L, const struct vs_sv *path, const struct vs_cmap *m, struct vs_sv seg)
+struct vs_level *g_Lp;      /* the level record of the function under proof (for the one model function that must be a function: at() may raise) */
+static inline struct Pistache_Rest_SegmentTreeNode **vs_cmap_at_fn(const struct vs_cmap *m, struct vs_sv seg)
 {
-    __CPROVER_assert(L->d_set && seg.p == path->p && seg.n == SEG_N(L), "C10: children are looked up by the first segment of the path (the text before the first '/')");
-    __CPROVER_assert(m->has_seg, "unordered_map::at() only for a key that is present (otherwise out_of_range escapes the search)");
+    struct vs_level *L = g_Lp;
+    vs_key_check(L, L->pathp, m, seg);
+    if (!m->has_seg) { vs_exc = VS_EXC_OUT_OF_RANGE; }
+    L->fixed_ptr = m->kind == 1 ? &vs_child_fixed : m->kind == 2 ? &vs_child_param : &vs_child_opt;
     return &L->fixed_ptr;
+}
+static inline void vs_cmap_insert(struct vs_level *L, const struct vs_sv *path, struct vs_cmap *m, struct vs_cpair kv)
+{
+    vs_key_check(L, path, m, kv.first);
+    __CPROVER_assume(m->n < PATH_MAX_LEN);       /* model bound: fewer than 2^32 children */
+    if (!m->has_seg) { m->has_seg = 1; m->n++; L->inserted = 1; }
+}
+static inline size_t vs_cmap_erase(struct vs_level *L, const struct vs_sv *path, struct vs_cmap *m, struct vs_sv seg)
+{
+    vs_key_check(L, path, m, seg);
+    if (!m->has_seg) return 0;
+    __CPROVER_assert(m->n > 0, "a map with an entry is not empty");
+    m->has_seg = 0; m->n--; L->erased = 1;
+    return 1;
+}
+static inline struct Pistache_Rest_SegmentTreeNode *vs_make_shared_node(struct vs_level *L) { (void)L; return &vs_child_new; }
+/* what one level of removeRoute did, checked when it returns normally */
+static inline void vs_remove_exit(const struct vs_level *L, const struct vs_sv *path, const struct Pistache_Rest_SegmentTreeNode *self, const struct Pistache_Rest_SegmentTreeNode *old_splat,
+                                  const struct vs_cmap *of, const struct vs_cmap *op, const struct vs_cmap *oo)
+{
+    if (vs_exc != 0) return;
+    if (path->n == 0) {
+        __CPROVER_assert(L->descents == 0 && !L->erased && self->splat_ == old_splat, "at the end of the pattern only the node's own route is removed");
+        return;
+    }
+    __CPROVER_assert(L->descents == 1, "C10: a pattern is removed by descending into exactly one child per segment");
+    int k = KIND_OF_TYPE(L->typ);
+    /* the child that was descended into goes exactly when it reported itself removable; every other child stays */
+    if (k == 4) __CPROVER_assert(self->splat_ == (L->child_removable ? (struct Pistache_Rest_SegmentTreeNode *)0 : old_splat) && !L->erased, "C10: the wildcard child is released exactly when it has become empty");
+    else __CPROVER_assert(self->splat_ == old_splat && IFF(L->erased, L->child_removable), "C10: the child entry is erased exactly when the child has become empty");
+    __CPROVER_assert(self->fixed_.n == of->n - ((k == 1 && L->erased) ? 1 : 0) && self->param_.n == op->n - ((k == 2 && L->erased) ? 1 : 0) && self->optional_.n == oo->n - ((k == 3 && L->erased) ? 1 : 0),
+                     "C10: no other child is touched by a removal");
+}
+/* addRoute / removeRoute descend into ONE child: the one of the segment's kind, with the rest of the pattern */
+static inline void vs_descend(struct vs_level *L, const struct vs_sv *path, const struct Pistache_Rest_SegmentTreeNode *self, const struct Pistache_Rest_SegmentTreeNode *c, const struct vs_sv *lower)
+{
+    __CPROVER_assert(L->descents == 0, "one descent per level");
+    L->descents++;
+    __CPROVER_assert(L->d_set && L->typ != -1, "the pattern is cut at its first '/' and the kind of the segment is known before descending");
+    __CPROVER_assert(L->d == VS_NPOS ? lower->n == 0 : (lower->p == path->p + L->d + 1 && lower->n == path->n - L->d - 1), "C10: the child is handed exactly the rest of the pattern behind the first '/'");
+    int k = KIND_OF_TYPE(L->typ);
+    if (k == 4) __CPROVER_assert(c == self->splat_ && c != 0, "C10: a '*' segment lives in the wildcard child");
+    else __CPROVER_assert(c == (k == 1 ? &vs_child_fixed : k == 2 ? &vs_child_param : &vs_child_opt) && (k == 1 ? self->fixed_.has_seg : k == 2 ? self->param_.has_seg : self->optional_.has_seg),
+                          "C10: the child descended into is the entry of this segment in the map of its kind");
 }
 /* the entry an iterator points at: (name of the parameter, its subtree) */
 static inline struct vs_cpair *vs_cmap_entry(struct vs_level *L, struct vs_cit it)
@@ -248,12 +332,13 @@ static inline void vs_level_exit(const struct vs_level *L, const struct vs_sv *p
     }
 }
 '''
-THROWING = []
+THROWING = ['vs_cmap_at_fn']
 ALWAYS_REPLACE = []
 OPAQUE = []
 RECORDS = [NODE]
 EXTRA_FIELDS = {}
 EXCEPTIONS = {'std::runtime_error': 'VS_EXC_RUNTIME_ERROR', 'std::out_of_range': 'VS_EXC_OUT_OF_RANGE'}
+CATCH_TEST = {'std::out_of_range': '($) == VS_EXC_OUT_OF_RANGE'}
 DEFAULT_RULE = False
 OPAQUE_UNKNOWN = True
 FUNCTIONS = [
@@ -267,13 +352,13 @@ FUNCTIONS = [
         ensures RET.p == g_dup.p + 1 && RET.n == ((g_dup.p[g_dup.n - 1] == '/' && g_dup.n >= 2) ? g_dup.n - 2 : g_dup.n - 1)"""},
     {'q': NODE + '::findRoute', 'sig': 'std::tuple<std::shared_ptr<Route>, std::vector<TypedParam>, std::vector<TypedParam>> (const std::string_view &, std::vector<TypedParam> &, std::vector<TypedParam> &) const',
      'c': 'Node_findRoute3', 'hoist_all': True,
-     'prologue': 'struct vs_level L = vs_level_init(path, params, splats);',
+     'prologue': 'struct vs_level L = vs_level_init(path, params, splats); g_Lp = &L;',
      'ghost': [('Node_findRoute3', 'before', 'vs_attempt(&L, path, this, $0, $1, params, splats);'), ('Node_findRoute3', 'after', 'vs_attempt_done(&L, $RET.route);')],
      'exit_ghost': 'vs_level_exit(&L, path, this, &vs_ret, params, splats);',
      'contract': """
         requires __CPROVER_rw_ok(this, sizeof(*this)) && __CPROVER_r_ok(path, sizeof(*path)) && __CPROVER_rw_ok(params, sizeof(*params)) && __CPROVER_rw_ok(splats, sizeof(*splats))
         requires node_ok(this) && node_ok(&vs_child_fixed) && node_ok(&vs_child_param) && node_ok(&vs_child_opt) && node_ok(&vs_child_splat) && path->n <= PATH_MAX_LEN && (path->n == 0 || __CPROVER_r_ok(path->p, path->n)) && params->n <= 2 * PATH_MAX_LEN - path->n && splats->n <= 2 * PATH_MAX_LEN - path->n && vs_exc == 0
-        assigns *params, *splats
+        assigns *params, *splats, g_Lp
         # (I) what callers -- and the recursive calls, by induction -- rely on
         ensures vs_exc == 0
         # no match: every binding pushed on the way was popped again, and nothing is handed back
@@ -281,18 +366,67 @@ FUNCTIONS = [
         # a match: the bindings handed back extend the ones on entry
         ensures RET.route != 0 ==> (RET.params.n >= OLD(params->n) && RET.splats.n >= OLD(splats->n))""",
      'loops': ["""
-        assigns *params, *splats, L, __begin3, $HOISTED
+        assigns *params, *splats, L, g_Lp, __begin3, $HOISTED
         invariant vs_exc == 0 && __begin3.i <= __end3.i && __end3.i == this->param_.n && __begin3.kind == 2 && params->n == L.p0 && splats->n == L.s0 && L.found == 0
         invariant L.d == LOOP_ENTRY(L.d) && L.p0 == LOOP_ENTRY(L.p0) && L.s0 == LOOP_ENTRY(L.s0) && L.pj == LOOP_ENTRY(L.pj) && L.oj == LOOP_ENTRY(L.oj)
         invariant L.d_set && L.stage <= 2 && path->n != 0 && (L.pj < __begin3.i ==> L.pj_asked) && (this->fixed_.has_seg ==> L.fixed_asked) && !L.splat_asked
         decreases __end3.i - __begin3.i""", """
-        assigns *params, *splats, L, __begin3, $HOISTED
+        assigns *params, *splats, L, g_Lp, __begin3, $HOISTED
         invariant vs_exc == 0 && __begin3.i <= __end3.i && __end3.i == this->optional_.n && __begin3.kind == 3 && params->n == L.p0 && splats->n == L.s0 && L.found == 0
         invariant L.d == LOOP_ENTRY(L.d) && L.p0 == LOOP_ENTRY(L.p0) && L.s0 == LOOP_ENTRY(L.s0) && L.pj == LOOP_ENTRY(L.pj) && L.oj == LOOP_ENTRY(L.oj)
         invariant L.d_set && L.stage <= 3 && path->n != 0 && (L.oj < __begin3.i ==> L.oj_asked) && (L.pj < this->param_.n ==> L.pj_asked) && (this->fixed_.has_seg ==> L.fixed_asked) && !L.splat_asked
         decreases __end3.i - __begin3.i"""]},
 ]
+FUNCTIONS += [
+    {'q': NODE + '::getSegmentType', 'prologue': 'const struct vs_sv *path = fragment; struct vs_level L = vs_level_init0(path);',
+     'exit_ghost': 'g_q = L.q;',
+     'contract': """
+        requires __CPROVER_r_ok(fragment, sizeof(*fragment)) && fragment->n >= 1 && fragment->n <= PATH_MAX_LEN && __CPROVER_r_ok(fragment->p, fragment->n) && vs_exc == 0
+        assigns vs_exc, g_q
+        ensures vs_exc == 0 || vs_exc == VS_EXC_RUNTIME_ERROR
+        # C10 (kinds of pattern segments), with q = fragment.find('?'): ":name" is a parameter, ":name?" -- the '?' at the very end -- an optional
+        # parameter, "*" alone the wildcard, anything else without '?' a fixed segment; every other use of '?' or '*...' is refused
+        ensures fragment->p[0] == ':' ==> (g_q == VS_NPOS ? (vs_exc == 0 && RET == Pistache_Rest_SegmentTreeNode_SegmentType_Param) : (g_q == fragment->n - 1 ? (vs_exc == 0 && RET == Pistache_Rest_SegmentTreeNode_SegmentType_Optional) : vs_exc != 0))
+        ensures fragment->p[0] == '*' ==> (fragment->n == 1 ? (vs_exc == 0 && RET == Pistache_Rest_SegmentTreeNode_SegmentType_Splat) : vs_exc != 0)
+        ensures (fragment->p[0] != ':' && fragment->p[0] != '*') ==> (g_q == VS_NPOS ? (vs_exc == 0 && RET == Pistache_Rest_SegmentTreeNode_SegmentType_Fixed) : vs_exc != 0)"""},
+    {'q': NODE + '::addRoute', 'c': 'Node_addRoute', 'prologue': 'struct vs_level L = vs_level_init0(path); g_Lp = &L;',
+     'ghost': [('Pistache_Rest_SegmentTreeNode_getSegmentType', 'after', 'L.typ = $RET;'), ('Node_addRoute', 'before', 'vs_descend(&L, path, this, $0, $1);')],
+     'exit_ghost': '__CPROVER_assert(path->n == 0 || L.descents == 1, "C10: a pattern is registered by descending into exactly one child per segment");',
+     'contract': """
+        requires __CPROVER_rw_ok(this, sizeof(*this)) && __CPROVER_r_ok(path, sizeof(*path)) && node_ok(this) && path->n <= PATH_MAX_LEN && (path->n == 0 || __CPROVER_r_ok(path->p, path->n)) && vs_exc == 0
+        requires node_ok(&vs_child_fixed) && node_ok(&vs_child_param) && node_ok(&vs_child_opt) && node_ok(&vs_child_splat) && node_ok(&vs_child_new)
+        assigns *this, vs_exc, g_Lp, g_q, vs_child_fixed, vs_child_param, vs_child_opt, vs_child_splat, vs_child_new
+        ensures vs_exc == 0 || vs_exc == VS_EXC_RUNTIME_ERROR
+        ensures node_ok(this)
+        # at the end of the pattern: the route is stored here -- unless one is stored already, which is refused and leaves it in place
+        ensures path->n == 0 ==> (OLD(this->route_) == 0 ? (vs_exc == 0 && this->route_ == &vs_new_route) : (vs_exc == VS_EXC_RUNTIME_ERROR && this->route_ == OLD(this->route_)))
+        # on the way down nothing is taken away: this node's own route stays, no child disappears
+        ensures path->n != 0 ==> (this->route_ == OLD(this->route_) && this->fixed_.n >= OLD(this->fixed_.n) && this->param_.n >= OLD(this->param_.n) && this->optional_.n >= OLD(this->optional_.n)
+                                  && (OLD(this->splat_) != 0 ==> this->splat_ == OLD(this->splat_)))"""},
+    {'q': NODE + '::removeRoute', 'c': 'Node_removeRoute', 'prologue': 'struct vs_level L = vs_level_init0(path); g_Lp = &L; struct Pistache_Rest_SegmentTreeNode *const OLD_SPLAT = this->splat_; const struct vs_cmap OLD_F = this->fixed_, OLD_P = this->param_, OLD_O = this->optional_;',
+     'ghost': [('Pistache_Rest_SegmentTreeNode_getSegmentType', 'after', 'L.typ = $RET;'), ('Node_removeRoute', 'before', 'vs_descend(&L, path, this, $0, $1);'),
+               ('Node_removeRoute', 'after', 'L.child_removable = $RET; g_Lp = &L;')],
+     'exit_ghost': 'vs_remove_exit(&L, path, this, OLD_SPLAT, &OLD_F, &OLD_P, &OLD_O);',
+     'contract': """
+        requires __CPROVER_rw_ok(this, sizeof(*this)) && __CPROVER_r_ok(path, sizeof(*path)) && node_ok(this) && path->n <= PATH_MAX_LEN && (path->n == 0 || __CPROVER_r_ok(path->p, path->n)) && vs_exc == 0
+        requires node_ok(&vs_child_fixed) && node_ok(&vs_child_param) && node_ok(&vs_child_opt) && node_ok(&vs_child_splat) && node_ok(&vs_child_new)
+        assigns *this, vs_exc, g_Lp, g_q, vs_child_fixed, vs_child_param, vs_child_opt, vs_child_splat, vs_child_new
+        ensures vs_exc == 0 || vs_exc == VS_EXC_RUNTIME_ERROR
+        ensures node_ok(this)
+        # C10 (the table after a removal is the table without that route): a node reports itself removable exactly when NOTHING is left in it --
+        # no fixed, parameter or optional child, no wildcard child, no route of its own
+        ensures vs_exc == 0 ==> IFF(RET, this->fixed_.n == 0 && this->param_.n == 0 && this->optional_.n == 0 && this->splat_ == 0 && this->route_ == 0)
+        # at the end of the pattern the node's own route is what is removed; on the way down it is kept
+        ensures (vs_exc == 0 && path->n == 0) ==> this->route_ == 0
+        ensures path->n != 0 ==> this->route_ == OLD(this->route_)"""},
+]
 PROOFS = [
+    {'name': 'getSegmentType', 'enforce': 'Pistache_Rest_SegmentTreeNode_getSegmentType', 'props': ['C10'],
+     'harness': 'void h_getSegmentType(void) { struct vs_sv f; size_t len; __CPROVER_assume(len >= 1 && len <= PATH_MAX_LEN); char *b = malloc(len); __CPROVER_assume(b != 0); f.p = b; f.n = len; Pistache_Rest_SegmentTreeNode_getSegmentType(&f); }\n'},
+    {'name': 'addRoute', 'enforce': 'Node_addRoute', 'rec': True, 'props': ['C10'], 'replace': ['Pistache_Rest_SegmentTreeNode_getSegmentType'],
+     'harness': 'void h_addRoute(void) { struct Pistache_Rest_SegmentTreeNode n, c1, c2, c3, c4, c5; vs_child_fixed = c1; vs_child_param = c2; vs_child_opt = c3; vs_child_splat = c4; vs_child_new = c5; _Bool hs; n.splat_ = hs ? &vs_child_splat : 0; vs_child_fixed.splat_ = 0; vs_child_param.splat_ = 0; vs_child_opt.splat_ = 0; vs_child_splat.splat_ = 0; vs_child_new.splat_ = 0; struct vs_sv path; size_t len; __CPROVER_assume(len <= PATH_MAX_LEN); char *b = malloc(len); __CPROVER_assume(b != 0); path.p = b; path.n = len; struct vs_opaque h, r; Node_addRoute(&n, &path, &h, &r); }\n'},
+    {'name': 'removeRoute', 'enforce': 'Node_removeRoute', 'rec': True, 'props': ['C10'], 'replace': ['Pistache_Rest_SegmentTreeNode_getSegmentType'],
+     'harness': 'void h_removeRoute(void) { struct Pistache_Rest_SegmentTreeNode n, c1, c2, c3, c4, c5; vs_child_fixed = c1; vs_child_param = c2; vs_child_opt = c3; vs_child_splat = c4; vs_child_new = c5; _Bool hs; n.splat_ = hs ? &vs_child_splat : 0; vs_child_fixed.splat_ = 0; vs_child_param.splat_ = 0; vs_child_opt.splat_ = 0; vs_child_splat.splat_ = 0; vs_child_new.splat_ = 0; struct vs_sv path; size_t len; __CPROVER_assume(len <= PATH_MAX_LEN); char *b = malloc(len); __CPROVER_assume(b != 0); path.p = b; path.n = len; Node_removeRoute(&n, &path); }\n'},
     {'name': 'sanitizeResource', 'enforce': 'Pistache_Rest_SegmentTreeNode_sanitizeResource', 'props': ['C10'],
      'harness': 'void h_sanitizeResource(void) { struct vs_sv path; size_t len; __CPROVER_assume(len >= 1 && len <= PATH_MAX_LEN); char *b = malloc(len); __CPROVER_assume(b != 0); g_dup.p = b; g_dup.n = len; Pistache_Rest_SegmentTreeNode_sanitizeResource(&path); }\n'},
     {'name': 'findRoute', 'enforce': 'Node_findRoute3', 'rec': True, 'loops': 'contracts', 'props': ['C10'],
